@@ -27,7 +27,12 @@ def run(env, res):
                 'yaml layout: flow style, JSON, first step on line 1, other indentation); a case is '
                 'non-trivial when the model accepts it and it terminates; distinct by canonical program text')
     directed = [('c03-restore', fo.c03_family, env.n(220, 100000)), ('c03-restore-midloop', fo.c03_midloop_family, env.n(60, 100000)),
-                ('c03-switch', fo.c03_switch_family, env.n(48, 100000)), ('c03-jump', fo.c03_jump_family, env.n(22, 100000))]
+                ('c03-switch', fo.c03_switch_family, env.n(48, 100000)), ('c03-jump', fo.c03_jump_family, env.n(22, 100000)),
+                ('c03-falsy-call', fo.c03_falsy_call_family, env.n(20, 100000)),
+                ('c03-counter-names', fo.c03_counter_names_family, env.n(24, 100000)),
+                ('c03-switch-lazy', fo.c03_switch_lazy_family, env.n(36, 100000)),
+                ('c03-recursive', fo.c03_recursive_family, env.n(56, 100000)),
+                ('c01-error-values', fo.c01_error_values_family, env.n(22, 100000))]
     flowcheck.run_streams(env, res, directed, env.n(500, 100000), weights={'call': 5, 'jump': 2.5, 'switch': 2.5, 'clear': 1.5, 'clearall': 0.6, 'set': 2},
                           random_monitor=flowcheck.monitor_all)
 
